@@ -49,7 +49,7 @@ def run(ctx):
         if rc != 0:
             res.violation("regression input fails again: %s: %s" % (os.path.basename(f), out[:300]), None, f)
     n = 3000                        # per process; rapidcheck slows down super-linearly, so many short runs
-    jobs = common.NCPU * ctx.pick(10, 400)
+    jobs = common.NCPU * ctx.pick(10, 100)
     work = os.path.join(common.ROOT, "work", "c05-%d" % os.getpid())
     os.makedirs(work, exist_ok=True)
 
